@@ -160,4 +160,32 @@ theorem calm_introspectProg (cfg now q) : calm (introspectProg cfg now q) := by
       · trivial
       · apply calm_pbind _ _ (calmH_introspectRefresh cfg now q); intro r; split <;> trivial
 
+theorem calm_introspectEndpointProg (cfg now q) : calm (introspectEndpointProg cfg now q) := by
+  unfold introspectEndpointProg
+  have hinspect : calm (do
+      match ← introspectProg cfg now q.q with
+      | .active use x => return .active use x
+      | _ => return Out.inactive .token_inactive : Prog Out) := by
+    apply calm_pbind _ _ (calm_introspectProg cfg now q.q); intro r; split <;> trivial
+  cases q.caller with
+  | bearer tok identical =>
+    simp only
+    split
+    · trivial
+    · apply calm_pbind _ _ (calm_introspectProg cfg now _); intro r
+      split
+      · split
+        · trivial
+        · exact hinspect
+      · trivial
+  | basic id secretOk =>
+    simp only
+    apply calm_pbind _ _ (calm_call' _ (by guardless)); intro r
+    split
+    · split
+      · exact hinspect
+      · trivial
+    · trivial
+  | anonymous => trivial
+
 end Fosite.Model
